@@ -302,7 +302,7 @@ def derive_seed(base: int, *parts) -> int:
     return int.from_bytes(h[:8], "big")
 
 
-class CaseTimeout(Exception):
+class CaseTimeout(BaseException):   # not an Exception: a slice's own "except Exception" must never swallow the watchdog
     pass
 
 
